@@ -7,6 +7,7 @@
 package scen
 
 import (
+	"crypto/sha256"
 	"context"
 	"encoding/hex"
 	"fmt"
@@ -52,6 +53,8 @@ type Scenario struct {
 	Followup         bool     `json:"followup,omitempty"`           // after the request: every backend works again, one more request is sent
 	ReadTimeoutMs    int      `json:"read_timeout_ms,omitempty"`    // proxy.read_timeout for this stack (default: product default)
 	Vary             uint64   `json:"vary,omitempty"`               // seed for settings no property mentions (stack.Opts.Vary)
+	ReqPad           int      `json:"req_pad,omitempty"`            // the request document is padded to this many bytes with a "pad" member (uploads above the inspector's 1 MiB)
+	ReqChunked       bool     `json:"req_chunked,omitempty"`        // the client sends the body chunked, without a Content-Length
 	StreamBufferSize int      `json:"stream_buffer_size,omitempty"` // proxy.stream_buffer_size (default: product default, 8 KiB; 16-64 KiB is what the documentation recommends for the olla engine)
 }
 
@@ -212,7 +215,12 @@ func Run(sc *Scenario) *Obs {
 	if n <= 0 {
 		n = 1
 	}
-	raw := stack.Request(sc.Method, sc.Path, s.Addr, [][2]string{{"Content-Type", "application/json"}, {"X-Verif", "1"}}, []byte(sc.ReqBody), false)
+	reqBody := []byte(sc.ReqBody)
+	if sc.ReqPad > len(reqBody)+12 && strings.HasSuffix(sc.ReqBody, "}") {
+		reqBody = []byte(sc.ReqBody[:len(sc.ReqBody)-1] + `,"pad":"` + strings.Repeat("p", sc.ReqPad-len(sc.ReqBody)-9) + `"}`)
+	}
+	reqSum := sha256.Sum256(reqBody)
+	raw := stack.Request(sc.Method, sc.Path, s.Addr, [][2]string{{"Content-Type", "application/json"}, {"X-Verif", "1"}}, reqBody, sc.ReqChunked)
 	res := make([]*stack.Resp, n)
 	done := make(chan int, n)
 	for i := 0; i < n; i++ {
@@ -241,7 +249,7 @@ func Run(sc *Scenario) *Obs {
 	obs.SameReq = true
 	for _, x := range all {
 		obs.Order = append(obs.Order, x.Backend)
-		if x.Method != all[0].Method || x.Path != all[0].Path || x.RawQuery != all[0].RawQuery || x.BodySHA != all[0].BodySHA || string(x.Body) != sc.ReqBody {
+		if x.Method != all[0].Method || x.Path != all[0].Path || x.RawQuery != all[0].RawQuery || x.BodySHA != all[0].BodySHA || x.BodySHA != hex.EncodeToString(reqSum[:]) || x.BodyLen != len(reqBody) {
 			obs.SameReq = false
 		}
 	}
